@@ -37,12 +37,14 @@ def calls():
     return out
 
 
-def queries(backend):
+def queries(backend, exprs=None):
+    "exprs: the expressions over j (outer loop variable) and k (inner) to place; default: calls()"
+    exprs = exprs if exprs is not None else calls()
     a = qgen.ALPHA[backend]
     A = f"e.{a.primary}('A')"
     B = f"e.{a.secondary}('B')"
     out = []
-    for x in calls():
+    for x in exprs:
         for inner in (B, "j.parts()"):
             I = f"{inner}"
             out += [
@@ -60,7 +62,7 @@ def queries(backend):
         out += [("first-receiver", f"ds.Select(lambda e: {B}.Select(lambda k: {xf}))"),
                 ("first-receiver-sum", f"ds.Select(lambda e: {B}.Select(lambda k: {xf}).Sum())")]
     # per-object stream: j is the stream element
-    for x in calls():
+    for x in exprs:
         out += [("stream-sum", f"ds.SelectMany(lambda e: {A}).Select(lambda j: j.parts().Select(lambda k: {x}).Sum())"),
                 ("stream-tuple", f"ds.SelectMany(lambda e: {A}).Select(lambda j: (j.pt(), j.parts().Select(lambda k: {x}).Sum()))")]
     seen = set()
